@@ -55,8 +55,12 @@ fn behaviour<const MAX: usize>(out: &mut Out, r: &mut Rng, lat: &[u64]) {
                 .words("tail", &after[tail_from..])
                 .n("limit", lim(&g)),
         );
+        if MAX <= 100 && r.chance(1, 3) {
+            load_ev(out, &g); // partially filled tables too
+        }
     }
     out.emit(Ev::new("gdt_dump").words("entries", &ent(&g)).n("limit", lim(&g)));
+    load_ev(out, &g);
     // loading hands the CPU the table's own address and limit
     cpu::drain();
     let base = g.entries().as_ptr() as u64;
@@ -71,6 +75,20 @@ fn behaviour<const MAX: usize>(out: &mut Out, r: &mut Rng, lat: &[u64]) {
     );
     let c = g.clone();
     out.emit(Ev::new("gdt_dump").words("entries", &ent(&c)).n("limit", lim(&c)));
+}
+
+fn load_ev<const MAX: usize>(out: &mut Out, g: &GlobalDescriptorTable<MAX>) {
+    cpu::drain();
+    let base = g.entries().as_ptr() as u64;
+    let ok = catch(|| unsafe { g.load_unsafe() }).is_some();
+    let ins = cpu::drain();
+    out.emit(
+        Ev::new("gdt_load")
+            .w("table", base)
+            .n("limit", lim(g))
+            .str("k", if ok { "ok" } else { "panic" })
+            .raw("instrs", &cpu::instrs_json(&ins)),
+    );
 }
 
 fn from_raw<const MAX: usize>(out: &mut Out, r: &mut Rng, lat: &[u64]) {
